@@ -18,7 +18,6 @@ import (
 	"strconv"
 	"strings"
 	"sync"
-	"time"
 
 	"github.com/NethermindEth/juno/consensus/starknet"
 	"github.com/NethermindEth/juno/consensus/tendermint"
@@ -1851,6 +1850,8 @@ func (rn *runner) realTimerProbe() {
 	defer ep.cleanup()
 	h := cfg.C0 + 1
 	wait := func(want string) bool {
+		dl, release := patient()
+		defer release()
 		select {
 		case got := <-fired:
 			rn.res.Compared(1)
@@ -1859,7 +1860,7 @@ func (rn *runner) realTimerProbe() {
 				rn.res.Mismatch(lib.Mismatch{Sig: "real-timer-delivers-other-timeout-than-armed", Input: "armed " + want, Model: want, Impl: got})
 				return false
 			}
-		case <-time.After(stepDeadline):
+		case <-dl:
 			rn.res.Fatalf("real-timer probe: the armed timer %s did not reach the state machine within %s", want, stepDeadline)
 			return false
 		}
@@ -2142,13 +2143,15 @@ func main() {
 	for i, hts := range []int{256, f.Scale(0, 258), f.Scale(0, 512)} {
 		if hts > 0 {
 			c, sc, last := longRun(hts)
-			jobs = append([]job{{cfg: c, script: sc, id: uint64(2000 + i), minIn: last, long: true}}, jobs...)
+			// crash points from the first input of the LAST COMMITTED height on: the commit that runs the
+			// cleanup (256th prune record) lies inside the explored window, the height after it, too
+			jobs = append([]job{{cfg: c, script: sc, id: uint64(2000 + i), minIn: last - 3, long: true}}, jobs...)
 		}
 	}
 	{
 		// messages of heights 257 / 258 recorded before the 256th commit (the cleanup must keep their file)
 		c, sc, last := longRunEarly(256)
-		jobs = append([]job{{cfg: c, script: sc, id: 2100, minIn: last, long: true, early: true}}, jobs...)
+		jobs = append([]job{{cfg: c, script: sc, id: 2100, minIn: last - 5, long: true, early: true}}, jobs...)
 	}
 	for i, d := range syncDirected() {
 		c := d.Cfg
